@@ -390,6 +390,133 @@ var fixedScripts = [][]string{
 }
 
 // ---------------------------------------------------------------------------------------------
+// direction switches in the middle of a stream, with a selection pending (a Get that no Next followed)
+
+// midScript: read k events forward, peek, switch backward; then either drain (j < 0) or read j events backward, peek,
+// switch forward again and drain. withRelease sprinkles Release calls between the steps.
+func midScript(k, j int, withRelease bool) []string {
+	var ops []string
+	for i := 0; i < k; i++ {
+		ops = append(ops, "g", "n")
+	}
+	ops = append(ops, "g")
+	if withRelease {
+		ops = append(ops, "r")
+	}
+	ops = append(ops, "b1")
+	if j >= 0 {
+		for i := 0; i < j; i++ {
+			ops = append(ops, "g", "n")
+		}
+		ops = append(ops, "g")
+		if withRelease {
+			ops = append(ops, "r")
+		}
+		ops = append(ops, "b0")
+	}
+	return append(ops, "d")
+}
+
+func parseTok(t string) *ev {
+	if k := strings.IndexByte(t, '/'); k >= 0 {
+		t = t[:k]
+	}
+	f := strings.Split(t, ":")
+	if len(f) != 3 {
+		return nil
+	}
+	a, e1 := strconv.ParseInt(f[0], 10, 64)
+	b, e2 := strconv.Atoi(f[1])
+	c, e3 := strconv.Atoi(f[2])
+	if e1 != nil || e2 != nil || e3 != nil {
+		return nil
+	}
+	return &ev{a, b, c}
+}
+
+// midOracle recognises a midScript and says, from what the implementation delivered before the last switch (only the
+// *counts per source* are used), what every source read alone delivers from where it then stands: the in-memory
+// source stands on its next unread record; switched backward it delivers that record (or its last one, when it had
+// ended) and everything before it, newest first; switched forward again it delivers the record it stands on and
+// everything after it. ok=false: not such a script.
+func midOracle(ls []leafSpec, ops []string, toks []string) (alone map[int][]ev, back bool, ok bool) {
+	if len(toks) != len(ops) {
+		return nil, false, false
+	}
+	i := 0
+	pairs := func() map[int]int {
+		cnt := map[int]int{}
+		for i+1 < len(ops) && ops[i] == "g" && ops[i+1] == "n" {
+			if e := parseTok(toks[i]); e != nil {
+				cnt[e.Tags]++
+			}
+			i += 2
+		}
+		return cnt
+	}
+	peekSwitch := func(sw string) bool {
+		if i < len(ops) && ops[i] == "g" {
+			i++
+			if i < len(ops) && ops[i] == "r" {
+				i++
+			}
+			if i < len(ops) && ops[i] == sw {
+				i++
+				return true
+			}
+		}
+		return false
+	}
+	fw := pairs()
+	if !peekSwitch("b1") {
+		return nil, false, false
+	}
+	idx := map[int]int{}
+	for _, l := range ls {
+		x := fw[l.Tags]
+		if x > len(l.Recs)-1 {
+			x = len(l.Recs) - 1
+		}
+		idx[l.Tags] = x // -1: empty source
+	}
+	alone = map[int][]ev{}
+	if i == len(ops)-1 && ops[i] == "d" {
+		for _, l := range ls {
+			all := l.events(false)
+			r := []ev{}
+			for x := idx[l.Tags]; x >= 0; x-- {
+				r = append(r, all[x])
+			}
+			alone[l.Tags] = r
+		}
+		return alone, true, true
+	}
+	bw := pairs()
+	if !peekSwitch("b0") || i != len(ops)-1 || ops[i] != "d" {
+		return nil, false, false
+	}
+	for _, l := range ls {
+		x := idx[l.Tags] - bw[l.Tags]
+		if x < 0 {
+			x = 0
+		}
+		all := l.events(false)
+		if x > len(all) {
+			x = len(all)
+		}
+		alone[l.Tags] = append([]ev{}, all[x:]...)
+	}
+	return alone, false, true
+}
+
+func specTreeWith(t *treeSpec, back bool, alone map[int][]ev) []ev {
+	if t.Leaf != nil {
+		return alone[t.Leaf.Tags]
+	}
+	return specMerge(back, specTreeWith(t.A, back, alone), specTreeWith(t.B, back, alone))
+}
+
+// ---------------------------------------------------------------------------------------------
 // section mixer
 
 type mixerCase struct {
@@ -447,12 +574,22 @@ func runMixerCase(c mixerCase, sec *vh.Section) pending {
 			specCheck(drains[1], true, "backward read from the end")
 		}
 	}
+	if alone, back, ok := midOracle(ls, c.Ops, toks); ok && len(drains) == 1 {
+		got := drains[0]
+		what := "read after a direction switch in mid-stream with a selection pending (Get without Next)"
+		if kind, w := checkProperty(got, alone, back); kind != "" {
+			res.SpecFail(vh.SpecFailure{Section: "mixer", Kind: kind, Input: c, Impl: evsString(got), Spec: evsString(specTreeWith(c.Tree, back, alone)),
+				What: what + ": " + w})
+		} else if want := specTreeWith(c.Tree, back, alone); evsString(got) != evsString(want) {
+			res.Mismatch(vh.Mismatch{Section: "mixer", Function: "mergeSpec tie rule (" + what + ")", Input: c, Impl: evsString(got), Model: evsString(want)})
+		}
+	}
 	return pending{"mixer", "model.Mixer Get/Next/Release/SetBackward", c, "mix " + c.Tree.line() + " | " + strings.Join(c.Ops, " "), impl}
 }
 
 func sectionMixer(rng *vh.Rng, corpus []mixerCase) {
 	sec := res.Section("mixer", "unit-correspondence",
-		"real model.Mixer trees (2..6 LogEventIterator/TestLogEventsWrapper leaves, every tree shape) with explicit source order: (a) exhaustive: two leaves of 0..2 events with timestamps in {1,2}, six fixed scripts each; (b) seeded random trees/contents (ties, empties, unsorted, negative ts) x fixed scripts + one random script of Get/Next/Release/SetBackward/drain; every answer and the root's (st,eof1,eof2) compared with the Lean model, complete forward/backward drains compared with the Go merge oracle and the property; non-trivial = at least 2 sources and 2 events, distinct by (tree, script)")
+		"real model.Mixer trees (2..6 LogEventIterator/TestLogEventsWrapper leaves, every tree shape) with explicit source order: (a) exhaustive: two leaves of 0..2 events with timestamps in {1,2}, six fixed scripts each plus, at every point k of the stream, Get-without-Next then SetBackward(true) then drain, and the same followed at every later point j by Get, SetBackward(false), drain; (b) seeded random trees/contents (ties, empties, unsorted, negative ts) x fixed scripts + one random script of Get/Next/Release/SetBackward/drain; every answer and the root's (st,eof1,eof2) compared with the Lean model, complete forward/backward drains compared with the Go merge oracle and the property; non-trivial = at least 2 sources and 2 events, distinct by (tree, script)")
 	var ps []pending
 	for _, c := range corpus {
 		ps = append(ps, runMixerCase(c, sec))
@@ -482,6 +619,13 @@ func sectionMixer(rng *vh.Rng, corpus []mixerCase) {
 				ps = append(ps, runMixerCase(mixerCase{t, s}, sec))
 				res.Dist(sec, "exhaustive-2x2")
 			}
+			// every point of the stream: switch backward with a pending selection, and forward again at every later point
+			for k := 0; k <= len(xa)+len(xb); k++ {
+				for j := -1; j <= k+1; j++ {
+					ps = append(ps, runMixerCase(mixerCase{t, midScript(k, j, (k+j)%3 == 0)}, sec))
+					res.Dist(sec, "exhaustive-2x2-midstream-switch")
+				}
+			}
 		}
 	}
 	// (b) random
@@ -500,6 +644,12 @@ func sectionMixer(rng *vh.Rng, corpus []mixerCase) {
 			ps = append(ps, runMixerCase(mixerCase{t, s}, sec))
 		}
 		ps = append(ps, runMixerCase(mixerCase{t, fixedScripts[2+rng.Intn(4)]}, sec))
+		for r := 0; r < 3; r++ {
+			k := rng.Range(0, totalRecs(ls)+1)
+			j := rng.Range(-1, k)
+			ps = append(ps, runMixerCase(mixerCase{t, midScript(k, j, rng.Chance(1, 3))}, sec))
+			res.Dist(sec, "midstream-switch")
+		}
 		c := mixerCase{t, genOps(rng, rng.Range(6, 30))}
 		ps = append(ps, runMixerCase(c, sec))
 		if i < 2 {
@@ -635,6 +785,12 @@ func runCursorCase(c cursorCase, sec *vh.Section) (p pending, ok bool) {
 			specCheck(drains[1], true, "backward read from the end")
 		}
 	}
+	if alone, back, ok := midOracle(c.Leaves, c.Ops, toks); ok && len(drains) == 1 {
+		if kind, w := checkProperty(drains[0], alone, back); kind != "" {
+			res.SpecFail(vh.SpecFailure{Section: "cursor", Kind: kind, Input: c, Impl: evsString(drains[0]), Spec: "union of what the sources deliver alone from where they stand; map order was " + fmt.Sprint(f.order),
+				What: fmt.Sprintf("read after a direction switch in mid-stream with a selection pending, %d sources: %s", n, w)})
+		}
+	}
 	// every journal must be released exactly once by close
 	for _, l := range c.Leaves {
 		if f.released[fmt.Sprintf("j%d", l.Tags)] != 1 {
@@ -652,11 +808,9 @@ func runCursorCase(c cursorCase, sec *vh.Section) (p pending, ok bool) {
 		line + " | " + strings.Join(c.Ops, " "), strings.Join(toks, " ")}, true
 }
 
-var nValues = []int{1, 2, 3, 4, 5, 7, 8, 16, 31, 49, 50, 51, 60}
-
 func sectionCursor(rng *vh.Rng, corpus []cursorCase) {
 	sec := res.Section("cursor", "unit-correspondence",
-		"cursor.newCursor over a fake ItFactory with n sources, n in {0,1,2,3,4,5,7,8,16,31,49,50,51,60} (quick) / every n <= 60 (thorough), contents with ties across sources, empty sources, unsorted sources; the observed order of the Itearator calls is the map order newCursor reduced, so the cursor's answers are compared exactly with MixTree.build for that order (scripts as in section mixer), and with the property; non-trivial = at least 2 sources and 2 events")
+		"cursor.newCursor over a fake ItFactory with n sources, every n in 0..64 (4 content shapes each quick, 20 thorough), contents with ties across sources, empty sources, unsorted sources; the observed order of the Itearator calls is the map order newCursor reduced, so the cursor's answers are compared exactly with MixTree.build for that order (scripts as in section mixer, incl. direction switches in mid-stream with a pending selection), and with the property; non-trivial = at least 2 sources and 2 events")
 	var ps []pending
 	add := func(c cursorCase) {
 		if p, ok := runCursorCase(c, sec); ok {
@@ -667,13 +821,14 @@ func sectionCursor(rng *vh.Rng, corpus []cursorCase) {
 		add(c)
 	}
 	add(cursorCase{Leaves: nil, Ops: []string{"d"}})
-	ns := nValues
-	shapes := 12
+	// every n: which counts an indexing mistake in the reduction hits is not predictable (it depends on the sizes of the
+	// later passes), and the fake factory makes all of them cheap
+	var ns []int
+	for i := 1; i <= 64; i++ {
+		ns = append(ns, i)
+	}
+	shapes := 4
 	if args.Thorough {
-		ns = nil
-		for i := 1; i <= 60; i++ {
-			ns = append(ns, i)
-		}
 		shapes = 20
 	}
 	for _, n := range ns {
@@ -684,6 +839,10 @@ func sectionCursor(rng *vh.Rng, corpus []cursorCase) {
 			add(cursorCase{ls, fixedScripts[0]})
 			add(cursorCase{ls, fixedScripts[1]})
 			add(cursorCase{ls, fixedScripts[2+rng.Intn(4)]})
+			for r := 0; r < 2; r++ {
+				k := rng.Range(0, totalRecs(ls)+1)
+				add(cursorCase{ls, midScript(k, rng.Range(-1, k), rng.Chance(1, 3))})
+			}
 			c := cursorCase{ls, genOps(rng, rng.Range(6, 40))}
 			add(c)
 			if n == 5 && s == 0 {
@@ -994,6 +1153,54 @@ func runSystemCase(srv *lrsrv.Srv, c systemCase, sec *vh.Section, limit int) (ps
 			fail(kind, fmt.Sprintf("%s read over %d partitions: %s", dir, c.N, w), evsString(got), "union of the partitions read alone")
 		}
 	}
+	// through the API: a page of k events, then a query from the returned position with a negative offset — the cursor
+	// switches backward and forward again in mid-stream. What C04 demands of the answer: no event twice, every
+	// partition's order kept, time order when every partition is stored in time order (which events exactly is C16).
+	if c.N < limit && c.N >= 2 && total >= 3 {
+		k := 1 + (total*7+c.N)%(total-1)
+		r1, err := srv.Querier.Query(ctx, &api.QueryRequest{Query: q, Limit: k})
+		if (err == nil || err == io.EOF) && r1 != nil && len(r1.Events) == k {
+			for _, j := range []int{1, (k + 1) / 2, k} {
+				r2, err := srv.Querier.Query(ctx, &api.QueryRequest{Query: q, Pos: r1.NextQueryRequest.Pos, Offset: -j, Limit: 10000})
+				if !(err == nil || err == io.EOF) || r2 == nil {
+					continue // whether the offset query answers is not this property's business
+				}
+				var got []ev
+				for _, e := range r2.Events {
+					got = append(got, sysEv(e.Timestamp, e.Message, e.Tags, lineToPart))
+				}
+				seen := map[ev]bool{}
+				last := map[int]int{}
+				sortedIn := c.Shape != "unsorted" && c.Shape != "corpus"
+				for x, e := range got {
+					in := map[string]interface{}{"case": c, "page": k, "offset": -j}
+					bad := func(kind, what string) {
+						res.SpecFail(vh.SpecFailure{Section: "system", Kind: kind, Input: in, Impl: evsString(got), Spec: "each event once, partitions in stored order, time-ordered",
+							What: fmt.Sprintf("query from the position after %d events with offset %d over %d partitions: %s", k, -j, c.N, what)})
+					}
+					if e.Tags < 0 || e.Msg/1000 != e.Tags {
+						bad("wrong-attribution", fmt.Sprintf("event %v is not reported under the tag line of the partition it was written to", e))
+						break
+					}
+					if seen[e] {
+						bad("extra-event", fmt.Sprintf("event %v is delivered twice", e))
+						break
+					}
+					seen[e] = true
+					if l, ok := last[e.Tags]; ok && e.Msg <= l {
+						bad("per-partition-order", fmt.Sprintf("the events of partition %d do not keep their stored order", e.Tags))
+						break
+					}
+					last[e.Tags] = e.Msg
+					if sortedIn && x > 0 && got[x-1].Ts > e.Ts {
+						bad("not-time-ordered", fmt.Sprintf("every partition is stored in timestamp order but the answer is not (position %d)", x))
+						break
+					}
+				}
+				res.Dist(sec, "api-negative-offset")
+			}
+		}
+	}
 	// nothing may stay acquired after the queries (failed or not)
 	if h := held(srv, tagsOf); h != 0 {
 		fail("leak", fmt.Sprintf("%d of %d partitions are still acquired after the queries ended (n=%d, limit=%d)", h, c.N, c.N, limit), fmt.Sprint(h), "0")
@@ -1015,19 +1222,36 @@ func modelLimit() int {
 
 func sectionSystem(rng *vh.Rng, corpus []systemCase) {
 	sec := res.Section("system", "spec-search",
-		"in-process server; n partitions in one tag group, n in {1,2,3,4,5,7,8,16,31,49,50,51,60} (quick) / every n <= 60 (thorough), content shapes: sorted with ties across partitions, all timestamps equal, globally unique, unsorted, some/all partitions empty, one big partition; the merged read (forward: backend.Querier; backward: a cursor walked backward from the tail) must be the union of the partitions read alone (multiset), keep every partition's order, be time-ordered when every partition is, report every event under the tag line of the partition it was written to; n > limit must fail; GetJournals' answer compared with the model; nothing may stay acquired; non-trivial = at least 2 partitions and 2 events")
+		"in-process server; n partitions in one tag group, n = 1..20, 22, 24, 27, 28, 30, 31, 34, 36, 40, 44, 47..51, 60 (quick) / every n <= 60 (thorough), content shapes: sorted with ties across partitions, all timestamps equal, globally unique, unsorted, some/all partitions empty, one big partition; the merged read (forward: backend.Querier; backward: a cursor walked backward from the tail) must be the union of the partitions read alone (multiset), keep every partition's order, be time-ordered when every partition is, report every event under the tag line of the partition it was written to; n > limit must fail; a page followed by a query from its position with a negative offset (direction switches in mid-stream through the API) must deliver no event twice, keep partition order and time order; GetJournals' answer compared with the model; nothing may stay acquired; non-trivial = at least 2 partitions and 2 events")
 	limit := modelLimit()
 	var cases []systemCase
 	cases = append(cases, corpus...)
-	ns := nValues
-	per := 12
+	// quick: every n up to 20 and a spread above (which counts an indexing mistake in newCursor's reduction hits depends on the
+	// sizes of the later passes), the limit's neighbourhood; thorough: every n <= 60
+	perOf := func(n int) int {
+		switch {
+		case args.Thorough:
+			return 3 // the journal library keeps two files per written partition open even after the server is stopped: the
+			// number of partitions one harness process may create is bounded by RLIMIT_NOFILE (about 5 500 here)
+		case n <= 8:
+			return 6
+		case n <= 20:
+			return 3
+		case n < 49:
+			return 2
+		}
+		return 3
+	}
+	var ns []int
 	if args.Thorough {
-		ns = nil
 		for i := 1; i <= 60; i++ {
 			ns = append(ns, i)
 		}
-		per = 3 // the journal library keeps two files per written partition open even after the server is stopped: the
-		// number of partitions one harness process may create is bounded by RLIMIT_NOFILE (about 5 500 here)
+	} else {
+		for i := 1; i <= 20; i++ {
+			ns = append(ns, i)
+		}
+		ns = append(ns, 22, 24, 27, 28, 30, 31, 34, 36, 40, 44, 47, 48, 49, 50, 51, 60)
 	}
 	// boundary values derived from the limit the code has now
 	for _, d := range []int{-1, 0, 1} {
@@ -1042,11 +1266,7 @@ func sectionSystem(rng *vh.Rng, corpus []systemCase) {
 		}
 	}
 	for _, n := range ns {
-		k := per
-		if n >= 49 && !args.Thorough {
-			k = 4
-		}
-		for s := 0; s < k; s++ {
+		for s := 0; s < perOf(n); s++ {
 			cases = append(cases, genSystemCase(rng, n, sysShapes[(s*3+n)%len(sysShapes)]))
 		}
 	}
